@@ -152,6 +152,62 @@ func runC01(p *core.Prog, r *core.Report, tier string) {
 		return
 	}
 
+	// ---- (i) one signature request per run: no path leads from one request to another ----
+	{
+		reaches := map[*ssa.Function]bool{}
+		for changed := true; changed; {
+			changed = false
+			for _, f := range p.FuncsIn(attRel) {
+				if reaches[f] {
+					continue
+				}
+				for _, wf := range core.WithClosures(f) {
+					core.EachInstr(wf, func(in ssa.Instruction) {
+						ci, ok := in.(ssa.CallInstruction)
+						if !ok {
+							return
+						}
+						if ci.Common().IsInvoke() && strings.HasPrefix(core.MethodName(ci.Common()), "SignBeaconAttestation") {
+							reaches[f] = true
+						}
+						if c := ci.Common().StaticCallee(); c != nil && reaches[c] {
+							reaches[f] = true
+						}
+					})
+				}
+				if reaches[f] {
+					changed = true
+				}
+			}
+		}
+		nReq := 0
+		for _, f := range p.FuncsIn(attRel) {
+			isReq := func(in ssa.Instruction) bool {
+				ci, ok := in.(ssa.CallInstruction)
+				if !ok {
+					return false
+				}
+				if ci.Common().IsInvoke() && strings.HasPrefix(core.MethodName(ci.Common()), "SignBeaconAttestation") {
+					return true
+				}
+				c := ci.Common().StaticCallee()
+				return c != nil && c != f && reaches[c]
+			}
+			var sites []ssa.Instruction
+			core.EachInstr(f, func(in ssa.Instruction) {
+				if isReq(in) {
+					sites = append(sites, in)
+				}
+			})
+			for i, site := range sites {
+				nReq++
+				w := core.PathQuery{Fn: f, From: site, Target: isReq}.Find()
+				r.Check(w == nil, "C01.i", fmt.Sprintf("%s|one-request#%d", core.FnKey(f), i+1), p.Pos(site.Pos()), "no second signature request can follow this one in the same run", "a second signature request for the same duty can follow this one (retry / per-account re-signing): the signer is all-or-nothing towards its caller but may already have signed, so validators are asked to sign twice in the epoch", p.WitnessText(w)...)
+			}
+		}
+		r.Floor("C01.i signature request sites", nReq, 2)
+	}
+
 	// the chain of functions from the sign site up to the entry (Attest)
 	chain := callChain(p, signFn, signSite.(ssa.Instruction), 4)
 	entry := chain[len(chain)-1]
